@@ -12,6 +12,7 @@ import (
 	"github.com/ory/keto/internal/namespace/ast"
 	"github.com/ory/keto/internal/relationtuple"
 	"github.com/ory/keto/internal/x"
+	"github.com/ory/keto/internal/x/verifhook"
 	"github.com/ory/keto/ketoapi"
 )
 
@@ -183,6 +184,7 @@ func (e *Engine) checkInverted(
 	return func(ctx context.Context, resultCh chan<- checkgroup.Result) {
 		innerCh := make(chan checkgroup.Result)
 		go check(ctx, innerCh)
+		verifhook.Point("invert.select")
 		select {
 		case result := <-innerCh:
 			// invert result here
